@@ -305,6 +305,10 @@ class Ctx:
                     break
                 if last is None or resumes >= max_crash_resumes:
                     break
+                if rc == 87:
+                    # the case watchdog fired (a hang): the rest of this shard is not run, the verdict is a
+                    # violation (if the hang repeats when the case is re-run alone) or inconclusive anyway
+                    break
                 resumes += 1
                 start = last + 1
             return shard, results
